@@ -3,6 +3,22 @@ import json, os
 VERIF = os.path.dirname(os.path.dirname(os.path.abspath(__file__)))
 
 CHECKS = {
+ 'C01': dict(
+   text='Theorems (Coq, reals, all sizes/dims/codebooks incl. duplicates and zero codes): argmax of the code\'s score -sqrt(max(0, x.x + c.c - 2 x.c)) is a nearest code in squared distance and the first such index; '
+        'clamp and sqrt never change the winner; any maximal-score index is nearest (any tie-break); cosine: the winner maximises <x, c>, is invariant under positive rescaling of x, and is the nearest point on the sphere; '
+        'the index is computed from the codebook in force at call start; LatentQuantize picks the value nearest in |z - v|; a mutated formula (dropped code norm) is refuted by witness. '
+        'Tie: cdist kernel, gumbel guard and the selection dataflow regenerated from the source; every recorded codebook call (VectorQuantize heads/layouts/projections/cosine, ResidualVQ layers incl. shared and implicit-neural, SimVQ, ResidualSimVQ, RandomProjectionQuantizer, LatentQuantize) checked nearest + returned vector = entry inside Coq on exact rationals.',
+   note='near-ties inside a float band are accepted (tol 0 on the dyadic stream); projections / MLP / SimVQ transform are opaque (applied by the module itself); pairwise_distance 1e-6 shift of the implicit-neural path is inside the band.',
+   technique='Coq proof (reals, order/field reasoning, unbounded) + regenerated kernels + per-call correspondence evaluated in Coq (vm_compute over Q)',
+   ref='DESIGN.md section 4 C01'),
+ 'C03': dict(
+   text='Theorems (Coq, reals, all K/dim/batches/decay/eps/histories): after a step counts and sums are decay*old + (1-decay)*batch statistic; codebook entry = running sum / Laplace-smoothed count; closed form after any history '
+        '(decay^n c0 + (1-decay) sum decay^(n-1-k) counts_k) by induction; never-hit codes decay geometrically and stay well defined (smoothed count > 0); total smoothed mass = total mass; decay = 1: statistics never move, codebook constant, '
+        'and for a fresh module it never moves at all; shared codebook: L layers accumulate, one normalisation; masked tokens contribute nothing. Tie: lerp / Laplace kernels, EMA / update / mask guards, step order regenerated from source; '
+        'every recorded training/eval/frozen/masked call of VectorQuantize (heads, separate codebooks, cosine, manual update) and ResidualVQ (per-layer, shared) stepped through the model inside Coq from the implementation\'s own pre-state.',
+   note='float32 rounding modelled by tolerance: 0 on the first step from a dyadic state with dyadic decay, 2^-20 relative otherwise, 2e-5 on the normalised codebook; cosine l2norm via a rational sqrt with error 2^-40.',
+   technique='Coq proof (reals, induction over histories) + regenerated kernels/guards + stepwise re-synchronised correspondence evaluated in Coq (vm_compute over Q)',
+   ref='DESIGN.md section 4 C03'),
  'C12': dict(
    text='Theorems (Coq, axiom-free, all n, cutoff, multiple_of, draws r): the layers that run are exactly the prefix {0..k-1} with k = min(n, round_up(r+1, m)); cutoff < k <= n; m | k or k = n; '
         'dropped layers form a suffix; every admissible k is produced by some in-contract draw; dropout is off when not training / indices supplied / dropout disabled / one layer. '
